@@ -199,6 +199,9 @@ func (c *Ctx) c20Judge(str string) (what, demand, gos, ms string) {
 		if m := strings.TrimPrefix(parA, "OK "); m != g.Shape {
 			return "parse tree differs from the structure the grammar prescribes", m, g.Shape, m
 		}
+		if o := evalFresh(str, map[string]interface{}{}); o.E == "syn" || o.E == "newerr" {
+			return "the engine's entry point rejects a sentence of the grammar", "NewEvaluator + Process report no syntax error for a sentence of JsonQuery.g4", o.Line() + " " + o.ErrText, parA
+		}
 	}
 	return "", "", "", ""
 }
@@ -283,6 +286,12 @@ func checkC20(c *Ctx) {
 				if x.fam == "sentence" && x.t != nil && x.t.Shape() != ms {
 					c.genStale("generator/model disagree on a generated sentence: " + x.s + " :: " + x.t.Shape() + " vs " + ms)
 				}
+				// the recogniser as shipped is reached through NewEvaluator: a sentence must not come back as a syntax error
+				if o := evalFresh(x.s, map[string]interface{}{}); o.E == "syn" || o.E == "newerr" {
+					report("the engine's entry point rejects a sentence of the grammar", "NewEvaluator + Process report no syntax error for a sentence of JsonQuery.g4", o.Line()+" "+o.ErrText, parA)
+					continue
+				}
+				c.count("accepted_by_the_entry_point_too")
 				c.count("accepted")
 				if strings.Count(g.Tokens, " ") >= 1 {
 					c.nontrivial(x.s)
